@@ -840,7 +840,7 @@ fn run_cli_family(run: &mut Run) {
         let obs = vec![
             ("cli-exit".to_string(), format!("{:?}/{:?}/{}", child.code, child.signal, child.timed_out)),
             ("cli-stdout".to_string(), format!("{}:{}", child.stdout.len(), sha256_hex(&child.stdout))),
-            ("cli-stderr".to_string(), String::from_utf8_lossy(&child.stderr).to_string()),
+            ("cli-stderr".to_string(), normalise_stderr(&String::from_utf8_lossy(&child.stderr))),
             ("cli-outfile".to_string(), outfile),
         ];
         match &reference {
@@ -1010,6 +1010,32 @@ pub fn run(run: &mut Run) {
         );
         run.tape.event(format!("observations {} digest {digest}", r.len()));
     }
+}
+
+/// A panic message names the OS thread id (`thread 'main' (4520) panicked`), which differs
+/// between processes for reasons that have nothing to do with the inputs; mask it.
+fn normalise_stderr(s: &str) -> String {
+    let mut out = String::with_capacity(s.len());
+    let mut rest = s;
+    while let Some(pos) = rest.find("thread '") {
+        let (head, tail) = rest.split_at(pos);
+        out.push_str(head);
+        // tail = "thread '<name>' (<digits>) …"
+        if let Some(q) = tail["thread '".len()..].find("' (") {
+            let after = &tail["thread '".len() + q + 3..];
+            let digits = after.chars().take_while(|c| c.is_ascii_digit()).count();
+            if digits > 0 && after[digits..].starts_with(')') {
+                out.push_str(&tail[.."thread '".len() + q + 3]);
+                out.push('N');
+                rest = &after[digits..];
+                continue;
+            }
+        }
+        out.push_str("thread '");
+        rest = &tail["thread '".len()..];
+    }
+    out.push_str(rest);
+    out
 }
 
 fn clip(s: &str) -> String {
